@@ -16,3 +16,17 @@ import CalmVerif.Props.C20
 #check @CalmVerif.Props.C20.program_ends_with_optional_newline
 #print axioms CalmVerif.Props.C20.ends_with_one_newline_partial
 #check @CalmVerif.Props.C20.ends_with_one_newline_partial
+#print axioms CalmVerif.Props.C20.other_lines_are_token_interiors
+#check @CalmVerif.Props.C20.other_lines_are_token_interiors
+#print axioms CalmVerif.Props.C20.tokens_preserved
+#check @CalmVerif.Props.C20.tokens_preserved
+#print axioms CalmVerif.Props.C20.defs_bracket_structure
+#check @CalmVerif.Props.C20.defs_bracket_structure
+#print axioms CalmVerif.Props.C20.chunk_stream_structure
+#check @CalmVerif.Props.C20.chunk_stream_structure
+#print axioms CalmVerif.Props.C20.level_is_structural_depth
+#check @CalmVerif.Props.C20.level_is_structural_depth
+#print axioms CalmVerif.Props.C20.level_is_depth_partial
+#check @CalmVerif.Props.C20.level_is_depth_partial
+#print axioms CalmVerif.Props.C20.newline_handler_indents_by_level
+#check @CalmVerif.Props.C20.newline_handler_indents_by_level
